@@ -41,8 +41,8 @@ void GMGPolar::solve()
 
     number_of_iterations_ = 0;
 
-    double initial_residual_norm;
-    double current_residual_norm, current_relative_residual_norm;
+    double initial_residual_norm = 1.0;
+    double current_residual_norm = 1.0, current_relative_residual_norm = 1.0;
 
     while (number_of_iterations_ < max_iterations_) {
 
